@@ -1212,3 +1212,31 @@ n('C16', '_stretch: half shares through temporaries', MESHES,
   "            half = remain/2\n            nl += int(np.floor(half))\n            nr += int(np.ceil(half))\n")
 n('C16', '_stretch: integer division for the left share', MESHES,
   "            nl += int(np.floor(remain/2))\n", "            nl += remain // 2\n")
+
+# ------------------------------------------------ rules added after seeded round 7
+m('C18', 'dry-run gradient shape from the index of the case', RUN,
+  "            if sim.model.case in ['HTI', 'VTI']:\n                shape = (2, *shape)\n            elif sim.model.case == 'triaxial':\n                shape = (3, *shape)\n",
+  "            nprop = ['isotropic', 'HTI', 'VTI', 'triaxial'].index(sim.model.case)\n            if nprop > 1:\n                shape = (nprop, *shape)\n",
+  'C18.Q2.output')
+m('C12', 'from_dict pops from the caller\'s dictionary', SIMS,
+  "        inp = {k: v for k, v in inp.items() if k != '__class__'}\n", "", 'C12.OW5.copy')
+m('C17', 'Model.to_dict stores the grid as it is', MODELS,
+  "'grid': meshes.TensorMesh(self.grid.h, self.grid.origin).to_dict(),", "'grid': self.grid.to_dict(),",
+  'C17.K2.plain')
+m('C05', 'semicoarsening: membership test for True', SOLVER,
+  "        if self.semicoarsening is True:", "        if self.semicoarsening in [True, np.True_]:",
+  'C05.H2.sc_table')
+m('C19', 'layered: C-order flattening of two electrodes', MP,
+  "        coords = coords.ravel('F')", "        coords = coords.ravel()", 'C19.L3.moment')
+m('C09', '_get_responses: model of the model grid for magnetic receivers', SIMS,
+  "                self.get_model(source, frequency), efield,", "                self.model, efield,",
+  'C09.EC.callsite')
+m('C11', 'interpolate_to_grid: identity instead of equality', MODELS,
+  "        if grid == self.grid:", "        if grid is self.grid:", 'C11.P4.purity')
+m('C04', 'restrict: z neighbour clamped with nx', CORE,
+  "            izp = min(nz-1, iz+1)", "            izp = min(nx-1, iz+1)", 'C04.R.row')
+m('C16', 'origin_and_widths: wavelength capped before scaling', MESHES,
+  "    wlength = lambda_factor*wavelength(skind[1:])", "    wlength = lambda_factor*np.minimum(wavelength(skind[1:]), max_buffer)",
+  'C16.G5.domain')
+m('C16', 'origin_and_widths: vector of three nodes dropped', MESHES,
+  "        if len(vector) < 3:", "        if len(vector) <= 3:", 'C16.G8.centre')
